@@ -198,6 +198,10 @@ def run_text_schedule(meta, data, ends, expected, cuts, polls, scratch):
     return npolls
 
 
+class ReaderHang(BaseException):
+    """Spin bound of the TRR reader loop (not an Exception: the code under test cannot swallow it)."""
+
+
 class FakeProc:
     """subprocess.Popen stand-in for GromacsRunner."""
 
@@ -234,8 +238,12 @@ class TrrCtl:
         self.nticks = 0
         self.max_ticks = 200000
 
+    on_tick = None
+
     def tick(self):
         self.nticks += 1
+        if self.on_tick:
+            self.on_tick()
         if self.nticks > self.max_ticks:
             raise Violation("reader_hangs", "TRR reader did not finish within the step budget")
         if self.ticks_left > 0:
@@ -282,8 +290,27 @@ def run_trr_schedule(meta, data, ends, expected, cuts, polls, scratch, linger=2)
         def Popen(*a, **kw):
             return FakeProc(ctl)
 
+    spin = [0]
+
+    class _Path:
+        def __getattr__(self, name):
+            real = getattr(os.path, name)
+            if name != "getsize":
+                return real
+
+            def counted(*a, **kw):
+                spin[0] += 1
+                if spin[0] > 200000:
+                    raise ReaderHang("the reader polled the file size 200000 times without sleeping or polling mdrun")
+                return real(*a, **kw)
+            return counted
+    path_proxy = _Path()
+    ctl.on_tick = lambda: spin.__setitem__(0, 0)
+
     class _Os:
         def __getattr__(self, name):
+            if name == "path":
+                return path_proxy
             if name == "setsid":
                 return None
             if name == "killpg":
@@ -309,6 +336,8 @@ def run_trr_schedule(meta, data, ends, expected, cuts, polls, scratch, linger=2)
                 got += 1
         except Violation:
             raise
+        except ReaderHang as exc:
+            raise Violation("reader_hangs", f"TRR after {w.pos}/{len(data)} bytes: {exc}")
         except Exception as exc:
             raise Violation("reader_raised", f"TRR after {w.pos}/{len(data)} bytes: {type(exc).__name__}: {exc} "
                             f"[{traceback.format_exc().splitlines()[-3].strip()}]")
